@@ -1,6 +1,7 @@
 package main
 
 import (
+	"bytes"
 	"encoding/base64"
 	"fmt"
 	"math/rand"
@@ -223,8 +224,18 @@ func (ls *logState) observe(res updResult, plain note.Verifier) {
 	}
 	cp, _, _, err := f_log.ParseCheckpoint(res.ret, ls.l.origin, plain)
 	if err != nil {
-		ls.has, ls.cur = true, nil
-		return
+		// what the witness returned does not open (e.g. more than 100 signature lines): read size and root from the
+		// text, which is the log's, so that the honest probe still knows where the log stands
+		if i := bytes.LastIndex(res.ret, []byte("\n\n")); i >= 0 {
+			var c2 f_log.Checkpoint
+			if _, e2 := c2.Unmarshal(res.ret[:i+1]); e2 == nil {
+				cp = &c2
+			}
+		}
+		if cp == nil {
+			ls.has, ls.cur = true, nil
+			return
+		}
 	}
 	ls.has = true
 	ls.curSize = cp.Size
@@ -368,6 +379,9 @@ func (w *world) genRequest(ls *logState) (uint64, []byte, [][]byte, string) {
 		cp := signNote(text, signers...)
 		if rng.Intn(4) == 0 { // extra junk signature lines
 			cp = append(cp, junkSigLines(rng, 1+rng.Intn(5))...)
+		} else if rng.Intn(6) == 0 { // up to the note format's maximum number of signature lines (100)
+			have := bytes.Count(cp[bytes.LastIndex(cp, []byte("\n\n"))+2:], []byte("\n"))
+			cp = append(cp, junkSigLines(rng, 100-have-rng.Intn(4))...)
 		}
 		return stored, cp, proof, "shape"
 	default: // corrupted / unauthentic
@@ -426,7 +440,7 @@ func junkSigLines(rng *rand.Rand, n int) []byte {
 	var b []byte
 	for i := 0; i < n; i++ {
 		raw := randHash(rng, 4+64)
-		b = append(b, []byte(fmt.Sprintf("— junk%d %s\n", rng.Intn(1000), base64.StdEncoding.EncodeToString(raw)))...)
+		b = append(b, []byte(fmt.Sprintf("— junk%d-%d %s\n", i, rng.Intn(1000), base64.StdEncoding.EncodeToString(raw)))...)
 	}
 	return b
 }
